@@ -412,7 +412,18 @@ def check_comprehension_shadow(run: Run, ctx: TermCtx, m, cls: ClassInfo, rule: 
 def _check_fold_guard(run: Run, fa, va: FuncInfo, fold_call: ast.Call, rule: str) -> None:
     """the attribute of a captured constant is folded whenever it *exists* (hasattr), not when its value is truthy"""
     if len(fold_call.args) >= 3:
-        return  # a probing getattr(.., default): judged where its result is tested
+        # a probing getattr(obj, name, default): "the attribute exists" cannot be told from "its value is the default"
+        # when the default is an ordinary constant - folding then depends on the value (None, 0, '' and False are lost)
+        has_ = False
+        obj_t = strip_sites(fa.term_of(fold_call.args[0]))
+        for a, pol in Facts(fa, fold_call).atoms:
+            if isinstance(a, ast.Call) and isinstance(a.func, ast.Name) and a.func.id == "hasattr" and pol and len(a.args) == 2 and fa.cfg.has_node(a.args[0]) and strip_sites(fa.term_of(a.args[0])) == obj_t:
+                has_ = True
+        dflt = fold_call.args[2]
+        if not has_ and not isinstance(dflt, ast.Constant):
+            raise AnalysisError("the captured attribute is probed with getattr(obj, name, <sentinel>): whether the sentinel can be told from every attribute value is not read")
+        run.check(has_, rule, va, stmt_of(fold_call), "captured attribute folded whenever it exists (hasattr), whatever its value", f"the attribute of a captured object is read with getattr(.., {ast.unparse(dflt)}) and folded depending on the value that comes back instead of on hasattr(object, name): a captured attribute whose value is 0, 0.0, '', False or None stays in the query as a Python-side attribute reference instead of its value", "hasattr(value.value, node.attr)")
+        return
     obj_t = strip_sites(fa.term_of(fold_call.args[0]))
     attr_t = strip_sites(fa.term_of(fold_call.args[1]))
     exists = False
@@ -440,7 +451,7 @@ def check_attribute_fold(run: Run, ctx, m, rule: str) -> None:
     V = ("visit", ("attr", ("param", va.pos_params[1]), "value"))
     n = 0
     for c in calls_in(va):
-        if isinstance(c.func, ast.Name) and c.func.id == "getattr" and len(c.args) == 2 and fa2.cfg.has_node(c) and strip_sites(fa2.term_of(c.args[0])) == ("attr", V, "value"):
+        if isinstance(c.func, ast.Name) and c.func.id == "getattr" and len(c.args) in (2, 3) and fa2.cfg.has_node(c) and strip_sites(fa2.term_of(c.args[0])) == ("attr", V, "value"):
             n += 1
             _check_fold_guard(run, fa2, va, c, rule)
     run.floor(rule, n, 1, "attribute folding sites")
